@@ -8,8 +8,11 @@
    state of its own.  [handed] are the numbers returned to callers and [consumed] the numbers
    written to the counter (returned or not), both in the order of the writes.
    [env_ok] is the assumption about the rest of the world, evaluated along the run: other
-   writers never lower the counter, never store a non-number, delete the key only while it
-   stands at 0, and the counter has not reached 2^32-1 when it is read. *)
+   writers never lower the counter, never store a non-number and delete the key only while it
+   stands at 0.  Nothing is assumed about the value of the counter: since the repair of C07-b a
+   caller that reads 2^32-1 fails ([next32]) instead of wrapping to 0, so the theorems below hold
+   up to and at the end of the uint32 range (before the repair they needed the extra hypothesis
+   "the counter has not reached 2^32-1" and C07_wrap_refuted exhibited 4294967295, 0). *)
 From Verif Require Import Common RunCounter RunCounter_proofs.
 Open Scope N_scope.
 
@@ -99,39 +102,69 @@ Theorem C07_lost_number_never_reused : forall s0 sched i n,
 Proof. exact lost_number_skipped. Qed.
 Print Assumptions C07_lost_number_never_reused.
 
-(* The two clauses of [env_ok] are needed.  (1) uint32 wrap: the code increments a uint32, so
-   4294967295 is followed by 0. *)
-Definition C07_monotone_without_exhaustion_clause_statement : Prop :=
-  forall s0 sched, wf_store s0 -> env_ok_nowrapclause (init s0) sched ->
-  StronglySorted N.lt (cur s0 :: handed (run (init s0) sched)).
+(* The exhausted counter: a caller that reads 2^32-1 returns an error, writes nothing and nothing
+   is handed out (so C07_monotone needs no bound on the counter). *)
+Theorem C07_exhausted_fails : forall st i b idx,
+  get (s_callers st) i = Idle -> st_kv (s_store st) = Some (b, idx) ->
+  parse_u32 b = Some max_u32 ->
+  s_store (do_step st (SServe i)) = s_store st /\
+  handed (do_step st (SServe i)) = handed st /\
+  get (s_callers (do_step st (SServe i))) i = Done None.
+Proof. exact exhausted_fails. Qed.
+Print Assumptions C07_exhausted_fails.
 
-Theorem C07_wrap_refuted : ~ C07_monotone_without_exhaustion_clause_statement.
-Proof. exact wrap_refutes. Qed.
-Print Assumptions C07_wrap_refuted.
-
-(* (2) a foreign writer that lowers the counter defeats any protocol (not a defect of the code) *)
+(* The hypothesis about other writers is needed: a foreign writer that lowers the counter defeats
+   any protocol (not a defect of the code). *)
 Definition C07_unique_without_foreign_clause_statement : Prop :=
-  forall s0 sched, wf_store s0 -> env_ok_noforeignclause (init s0) sched ->
-  NoDup (handed (run (init s0) sched)).
+  forall s0 sched, wf_store s0 -> NoDup (handed (run (init s0) sched)).
 
 Theorem C07_needs_monotone_foreign_writers : ~ C07_unique_without_foreign_clause_statement.
 Proof. exact lowering_refutes. Qed.
 Print Assumptions C07_needs_monotone_foreign_writers.
 
-(* File backend (the non-Consul branch of NewRunNumber): unlocked read-modify-write. *)
+(* File backend (the non-Consul branch of NewRunNumber), all goroutines of one process calling one
+   Service: Lock, Stat/create, ReadFile, WriteFile, Unlock.  [frun (finit f) sched] executes ANY
+   interleaving [sched] of the steps of any number of calls on ANY initial file content (absent,
+   junk, a number, 2^32-1).  Since the repair of C07-a (mutex) and C07-b (overflow check) the
+   full statement holds with no hypothesis at all. *)
 Definition C07_file_backend_statement : Prop :=
   forall f sched, NoDup (fhanded (frun (finit f) sched)).
 
-Theorem C07_file_backend_refuted : ~ C07_file_backend_statement.
-Proof. exact file_dup_refutes. Qed.
-Print Assumptions C07_file_backend_refuted.
+Theorem C07_file_backend_unique : C07_file_backend_statement.
+Proof. exact file_nodup. Qed.
+Print Assumptions C07_file_backend_unique.
 
-(* ... it is correct exactly when calls do not overlap *)
-Theorem C07_file_backend_partial : forall f ids,
-  NoDup ids -> fcur f + N.of_nat (length ids) <= max_u32 ->
-  StronglySorted N.lt (fcur f :: fhanded (frun (finit f) (fserial ids))).
-Proof. exact file_serial_sorted. Qed.
-Print Assumptions C07_file_backend_partial.
+Theorem C07_file_backend_monotone : forall f sched,
+  StronglySorted N.lt (fcur f :: fhanded (frun (finit f) sched)).
+Proof. exact file_sorted. Qed.
+Print Assumptions C07_file_backend_monotone.
+
+(* no update is lost: the file stands at its first value plus the number of calls that returned *)
+Theorem C07_file_backend_dense : forall f sched,
+  fcur (f_file (frun (finit f) sched)) =
+  fcur f + N.of_nat (length (fhanded (frun (finit f) sched))).
+Proof. exact file_dense. Qed.
+Print Assumptions C07_file_backend_dense.
+
+(* at most one call is between Lock and Unlock *)
+Theorem C07_file_backend_mutex : forall f sched i j,
+  fcritical (frun (finit f) sched) i -> fcritical (frun (finit f) sched) j -> i = j.
+Proof. exact file_mutex. Qed.
+Print Assumptions C07_file_backend_mutex.
+
+Theorem C07_file_exhausted_fails : forall st i b,
+  fget (f_callers st) i = FChecked -> f_file st = Some b -> parse_u32 b = Some max_u32 ->
+  f_file (fstep st i) = f_file st /\ f_rets (fstep st i) = f_rets st /\
+  fget (f_callers (fstep st i)) i = FDone None.
+Proof. exact file_exhausted_fails. Qed.
+Print Assumptions C07_file_exhausted_fails.
+
+(* the mutex is what makes it true: the same steps without it (the code before the repair) hand
+   6 out twice; this is the behaviour monitor code 6 looks for *)
+Theorem C07_file_lock_needed :
+  ~ (forall f sched, NoDup (fhanded (frun_nolock (finit f) sched))).
+Proof. exact file_nolock_refutes. Qed.
+Print Assumptions C07_file_lock_needed.
 
 (* START_ACTIVITY: no number => the transition is cancelled, state and run number untouched,
    an error is returned — whatever the counter run looked like. *)
@@ -162,3 +195,19 @@ Proof.
   vm_compute. repeat split; try reflexivity; try (intros; discriminate).
   exists 1. split; [reflexivity|discriminate].
 Qed.
+
+(* ... and at the end of the range (the schedule that wrapped before the repair): counter at
+   4294967294, two starts: the first gets 4294967295, the second fails, the counter stays *)
+Example C07_nonvacuous_boundary :
+  let s0 := mkStore (Some (b_4294967294, 1)) 1 in
+  let sched := [SServe 0; SServe 0; SServe 1; SServe 1] in
+  wf_store s0 /\ env_ok (init s0) sched /\
+  handed (run (init s0) sched) = [4294967295] /\
+  map (result (run (init s0) sched)) [0; 1] = [Some 4294967295; None] /\
+  cur (s_store (run (init s0) sched)) = 4294967295.
+Proof. exact boundary_example. Qed.
+
+(* file backend: two overlapping calls on "5" — the second one waits for the mutex *)
+Example C07_nonvacuous_file :
+  fhanded (frun (finit (Some [53])) [0; 1; 0; 1; 0; 1; 1; 1]) = [6; 7].
+Proof. reflexivity. Qed.
